@@ -62,6 +62,7 @@ class Loops:
         self.invariants = {}     # (label, ordinal) -> fn(ex, env, i) -> [(name, props, formula)]
         self.axioms = {}         # (label, ordinal) -> fn(ex, env, i) -> [formula]  (ghost definitions, assumed only)
         self.post_bind_axioms = {}   # same, evaluated after the loop target is bound (type invariants of host data)
+        self.var_invs = {}
 
     _idiom_key = None
 
@@ -192,6 +193,11 @@ class Loops:
         fn = self.invariants.get(key)
         if fn is not None:
             invs.extend(fn(ex, env, i))
+        for n, pname, props, pf in self.var_invs.get(key, ()):
+            if env is not None and env.has(n):
+                v = env.lookup(n)
+                if isinstance(v, z3.ExprRef) and v.sort() == Val:
+                    invs.append(('variable-%s-%s' % (n, pname), props, pf(ex, v)))
         if extra:
             invs.extend(extra(i))
         return invs
@@ -460,9 +466,30 @@ class Loops:
         if self.run_loop(ex, key, env, desc, bind, body, st.body, names) != 'break':
             ex.exec_block(st.orelse, env)
 
+    # candidate invariants about loop-carried variables, kept when they hold on entry (and then have to be preserved):
+    # what a variable *is* is carried from one iteration to the next, whatever the loop looks like
+    VAR_PREDICATES = [
+        ('is-a-token-or-None', ['C18', 'C11'],
+         lambda ex, v: z3.Or(L.is_None(v), z3.And(L.is_Obj(v), L.cls_of(Val.oref(v)) == ex.engine.shapes.cid('LexToken')))),
+    ]
+
+    def var_candidates(self, ex, key, env, names):
+        out = []
+        for n in sorted(names):
+            if not env.has(n):
+                continue
+            v = env.lookup(n)
+            if not (isinstance(v, z3.ExprRef) and v.sort() == Val):
+                continue
+            for pname, props, fn in self.VAR_PREDICATES:
+                if ex.check_sat(z3.Not(fn(ex, v))) == z3.unsat:
+                    out.append((n, pname, props, fn))
+        self.var_invs[key] = out
+
     def while_loop(self, ex, st, env):
         key = self.loop_key(ex, st)
         names = assigned_names(st.body)
+        self.var_candidates(ex, key, env, names)
         self.cur_mod_names[key] = [n for n in names if env.has(n)]
         self.check_invs(ex, key, env, z3.IntVal(0), 'entry')
         pre_existing = [n for n in names if env.has(n)]
